@@ -19,7 +19,7 @@
 import CC.Gen.DrawTables
 namespace CC.Draw
 
-/-! ## `round(x, ndigits=2)` -/
+/-! ## `round_node` -/
 
 /-- round-half-even of an exact rational to an integer -/
 def roundHalfEven (q : Rat) : Int :=
@@ -27,11 +27,31 @@ def roundHalfEven (q : Rat) : Int :=
   let r := q - (f : Rat)
   if r < 1/2 then f else if 1/2 < r then f + 1 else if f % 2 = 0 then f else f + 1
 
-/-- CPython `round(x, 2)` on a binary64 `x`: the exact value is rounded half-even to two
-decimals (correctly rounded `dtoa`), then converted back to the nearest double.  The model
-keeps the exact decimal `k/100`; the map `k ↦ double(k/100)` is injective on the coordinate
-range of drawings, so equality of rounded points is the same on both sides. -/
-def round2 (x : Rat) : Rat := ((roundHalfEven (x * 100) : Int) : Rat) / 100
+/-- `2^e` for an integer exponent -/
+def pow2 (e : Int) : Rat := if 0 ≤ e then ((2 ^ e.toNat : Nat) : Rat) else 1 / ((2 ^ (-e).toNat : Nat) : Rat)
+
+/-- the binary64 number nearest to `q` (ties to even), as an exact rational; normal range only
+(drawing coordinates are 0 or between 1e-9 and 1e15 in magnitude) -/
+def nearestDouble (q : Rat) : Rat :=
+  if q = 0 then 0 else
+  let a := if q < 0 then -q else q
+  -- e with 2^e ≤ a < 2^(e+1)
+  let e0 : Int := (a.num.natAbs.log2 : Int) - (a.den.log2 : Int)
+  let e : Int := if a < pow2 e0 then e0 - 1 else if pow2 (e0 + 1) ≤ a then e0 + 1 else e0
+  let scale := pow2 (52 - e)
+  let m := roundHalfEven (a * scale)
+  let r := (m : Rat) / scale
+  if q < 0 then -r else r
+
+/-- CPython `round(x, d)` on a binary64 `x`: the exact value is rounded half-even to `d` decimals
+(correctly rounded `dtoa`), then converted back to the nearest double -/
+def roundTo (d : Nat) (x : Rat) : Rat :=
+  nearestDouble (((roundHalfEven (x * ((10 ^ d : Nat) : Rat)) : Int) : Rat) / ((10 ^ d : Nat) : Rat))
+
+/-- `local_round` of `round_node`: the chain of roundings the code applies (generated:
+`Gen.roundDigits`, innermost first; `[9, 2]` since 631ff19 — float noise is snapped before the
+coordinate is rounded to the node grid) -/
+def round2 (x : Rat) : Rat := Gen.roundDigits.foldl (fun v d => roundTo d v) x
 
 def roundPt (p : Pt) : Pt := ⟨round2 p.x, round2 p.y⟩
 
